@@ -99,6 +99,24 @@ CHECKS = {
         note=TRUSTED + " Expected parameters are canonically named; types are a 3-class chain; Callable[...] / protocol / override "
         "entry points share Signature.can_assign but are not driven separately.",
     ),
+    "C08": dict(
+        technique="TLA+ state machine Overloads.tla (two-pass loop of OverloadedSignature.check_call with any/union/union+any "
+        "bookkeeping, binder, decompose_union, _unite_rets) model-checked by TLC against the declarative RefClause (first "
+        "accepting overload on concrete classes; union argument = every member; Any argument = some unknown class); every "
+        "TLC-enumerated/simulated (overload set, call) is realised as @overload stubs + reveal_type(f(args)), checked by the real "
+        "visitor, and the verdict, revealed type, second-pass step classification and real CPython binding of every overload "
+        "are adjudicated by TLC (OverloadsTrace.tla)",
+        text="Model checking: TLC proves the machine satisfies the property for every overload set of 2-3 signatures (4 with <=1 "
+        "parameter) over {int,bool,str,None,float,object,Any,unions}, parameters positional-or-keyword/keyword-only with/"
+        "without defaults, and every call of <=2 positional/keyword arguments with at most one union argument; one named "
+        "deviation class (known_findings.jsonl), everything else must hold. The real checker is bound to the model by "
+        "replaying the enumerated cases (quick: all; thorough: 1 in 2-6 overload sets per slice) plus TLC simulation of 2-4 "
+        "overloads, with TLC judging every real result against RefClause and comparing the real loop's per-overload steps.",
+        design="2/C08",
+        note=TRUSTED + " Assignability inside the oracle is nominal subtyping over six builtin classes plus int->float; the binder "
+        "part of the oracle is checked against real CPython calls on every observation. Second-pass steps are observed by "
+        "wrapping Signature.check_call_preprocessed in the harness process.",
+    ),
     "C09": dict(
         technique="TLA+ specs Scopes.tla (FunctionScope set/get_local/subscope/loop_scope/suppressing_subscope/combine + what the "
         "visitor issues per statement) vs CFG.tla (independent collecting semantics: strict and liberal reaching definitions), "
